@@ -29,8 +29,20 @@ CHECKS = {
     'C15': ('benum', 'Every job spec built from the validator facet table x every batch format version through db_spec/JSON/get_spec_*; every region subset of tables up to 10 (thorough 16) regions plus single/pair/complement sets up to 63 regions through the bitset helpers.', BE, BET),
     'C16': ('vloop', 'Every order of runnable event-loop callbacks of the real FIFOWeightedSemaphore for every configuration of 2-3 (thorough: 4) jobs, weights 1..3, capacity 3, judged against a FIFO reference model at every step.', VL + ' Bodies do not raise or get cancelled.', VLT),
     'C17': ('benum', 'Every labelled dependency digraph on <=3 (thorough 4) DSL jobs (explicit and resource-induced edges, all creation orders, always_run vectors, failing subsets, set iteration orders) through the real Batch/LocalBackend with only subprocess replaced by a recorder.', BE, BET),
+    'C19': ('benum', 'Real Batch._create_bunches on every list of <=1+4 (thorough 2+5) specs with serialised sizes from a 4-value set, every byte limit from 1 to total+1 and several count limits.', BE, BET),
+    'C21': ('vloop', 'Real retry_transient_errors* on a virtual loop: every sequence (smallest first, to length 7) of real exception objects (one per branch of the classification functions, plus chained variants) before success, jitter answers enumerated at both extremes; reference policy written from the statement.', VL, VLT),
     'C22': ('vloop', 'Real Copier/Transfer over real LocalAsyncFS+RouterAsyncFS in a scratch directory on a virtual loop with every thread-pool call a schedulable step; source-tree grammar x file sizes around part boundaries x destination states x treat_dest_as modes x 1-2 transfers; all schedules with <=1 (thorough: 2 for a subset) deviations incl. task-starvation deviations; reference model of the destination rules.', VL, VLT),
     'C23': ('benum', 'Every (size, start, length, read pattern) up to size 6 (thorough 12) on the four real backends (local files; GCS/S3/Azure clients over fakes of the documented wire semantics) against Python slice semantics.', BE + ' The cloud fakes encode the documented range semantics of each service.', BET),
+    'C25': ('benum', 'Every string of the documented size grammar up to the digit bounds x all units, against exact rational arithmetic; every short string over an 18-character alphabet plus one-edit neighbours for client/server acceptance equality.', BE, BET),
+    'C27': ('vloop', 'Real gear.database transaction helpers over the aiomysql shim with a transactional in-memory backend: every fault plan with <=2 (thorough 3) injected MySQL errors (9 errnos, raised as the class PyMySQL 1.x raises) at every position of 15 operations.', VL + ' The errno->exception-class map is PyMySQL 1.1.x from memory (no copy in the sandbox).', VLT),
+    'C28': ('benum', 'Every string of length <=5 (thorough 6) over 16 class-representative characters (ASCII classes, newline, CR, NUL, space, non-ASCII letters/digits) through the validators and their call site, against two hand-written DFAs.', BE, BET),
+    'C29': ('benum', 'Every concatenation of <=5 tokens (plus 6-token sequences over a core alphabet; thorough one more) of URL-significant tokens through validate_next_page_url; for each accepted string the Location the handler sends is resolved by a WHATWG-style reference parser.', BE, BET),
+    'C31': ('benum', 'All types to depth 2-3 x a name set incl. every troublemaker character class as field / genome names: str/dtype round trip, escape/unescape inversion, and every emitted identifier through an engine-lexer acceptor whose accept set is extracted from the current Scala source.', BE, BET),
+    'C32': ('benum', 'All types to depth 2 (+ thin depth 3) x per-type value domains (missing everywhere, boundary numbers, NaN/inf, calls, loci, intervals, collections) through the JSON wire conversion and back.', BE, BET),
+    'C33': ('benum', 'All types to depth 1-2 x covering value domains incl. n-d arrays in C/Fortran order through the real EncodedLiteral encoding, hail decoder and an independent reference decoder driven by the EType tree the sliced engine code (run on a JVM) declares.', BE + ' Engine side: sliced Scala compiled with Scala 3.3.4 against class-shape stand-ins.', BET),
+    'C34': ('benum', 'Every call (ploidy 0-2, phased/unphased) in the stated allele ranges incl. all power-of-two boundaries up to the representable maximum, and genotype indices to 1e5 (thorough 1e6): Python packing vs the sliced engine Call/Genotype code run on a JVM.', BE + ' Engine side: sliced Scala compiled with Scala 3.3.4.', BET),
+    'C37': ('benum', 'All 2x2 tables with cells <=12 (thorough 20) and genotype triples <=15 (30) through the sliced engine statistics code run on a JVM, against exact rational references.', BE + ' Distribution classes (hypergeometric, chi-square) are exact stand-ins, so what is verified is hail\'s own arithmetic.', BET),
+    'C38': ('benum', 'Real VariantDatasetCombiner planning/step/save/load over a provenance-tracking data plane for every (GVCF count, VDS multiset, branch factor, batch size) in the bounds x every crash/resume plan; even genome partitioning on synthetic genomes.', BE, BET),
     'C18': ('benum', 'Every pipeline of <=3 bash/python jobs over the resource kinds of the statement and all read wirings through the real DSL and ServiceBackend._async_run with a recording batch client; plumbing read off what was submitted.', BE, BET),
 }
 
